@@ -311,8 +311,23 @@ func RunLockstep(spec LockSpec) *LockResult {
 			p := get(w)
 			p.mem.Reset()
 			p.sql.Reset()
-			p.mem.Replay(hist)
-			p.sql.Replay(hist)
+			if cfg.DLQMaxDepth > 0 {
+				// memory breaks DLQ-depth ties by map iteration order: a replay may take the other (equally legal) branch
+				// and leave the two backends in different, both legal, states; such a replay is not extended
+				for _, h := range hist {
+					p.mem.Do(h)
+					p.sql.Do(h)
+					if snapDiff(p.mem.Snapshot(), p.sql.Snapshot()) != "" {
+						mu.Lock()
+						perm["dlq-depth-prune-tie-on-replay"]++
+						mu.Unlock()
+						return bfs.StepResult[*qmodel.Model]{Key: "REPLAY-TIE:" + p.mem.Key() + "##" + p.sql.Key(), NoExtend: true, Label: "permitted:dlq-depth-prune-tie-on-replay"}
+					}
+				}
+			} else {
+				p.mem.Replay(hist)
+				p.sql.Replay(hist)
+			}
 			oa := p.mem.Do(op)
 			ob := p.sql.Do(op)
 			sa := p.mem.Snapshot()
